@@ -495,6 +495,8 @@ func propC12(c *Ctx) {
 	ruleDeepCopy(c, rdc)
 	rfp := c.Rule("fork-parent", "every compiler fork records the forking compiler as its parent on every path (the cyclic-import check walks this chain)", 2)
 	ruleForkParent(c, rfp)
+	rfs := c.Rule("fork-same-file", "a compiler forked for a function literal inherits the forking compiler's module path and module map unchanged: an import inside a function resolves as at the top level of the same file", 1)
+	ruleForkSameFile(c, rfs)
 	rod := c.Rule("operand-decode", "every multi-byte operand the VM reads (module indexes among them) is assembled big-endian from adjacent bytes, as the compiler encodes it", 10)
 	ruleOperandDecode(c, rod, vf, "")
 
